@@ -142,6 +142,45 @@ class Model(object):
         hd["released"] = True
         return self.expect(())
 
+    def op_item_release(self, s, _b, _t):
+        """C only: release through the capsule ({addr, idtor}); honours the destructor index."""
+        if self.driver != "c":
+            raise Invalid("c only")
+        hd = self.handle(s)
+        if hd["released"]:
+            return self.expect(())
+        o = self.objs[hd["oid"]]
+        if not o["alive"]:
+            raise Invalid("release through a dangling copy")
+        if o["owner"] == "caller":
+            o["alive"] = False
+        hd["released"] = True  # addr is cleared either way
+        return self.expect(())
+
+    # ---- plain C string API
+    def op_cstr_ref(self, _a, _b, _t):
+        return self.expect((len(REF_STRING), REF_STRING))
+
+    def op_cstr_lib(self, _a, _b, _t):
+        return self.expect((len(LIB_STRING), LIB_STRING))
+
+    def op_cstr_owned(self, n, _b, _t):
+        # caller-owned result: per the property it must be released once the caller is done with
+        # it; the plain C API offers no way to do so (recorded finding), the model still says so
+        hid = self.take_hand("string")
+        del self.hands[hid]
+        return self.expect((n, pattern(n)))
+
+    def op_cstr_in(self, _a, _b, text):
+        return self.expect((len(text) * 1000 + sum(ord(c) for c in text),))
+
+    def op_cstr_out(self, _a, n, _t):
+        return self.expect((n, pattern(n)))
+
+    def op_cstr_inout(self, _a, _b, text):
+        s = text + "+x"
+        return self.expect((len(s), s))
+
     def op_item_value(self, s, _b, _t):
         return self.expect((self.usable(s)["value"],))
 
@@ -373,8 +412,16 @@ def gen_op(rng, model, enabled, uniq):
     t = rng.randrange(NH)
     if name in ("item_val", "make_item", "copy_item", "item_set", "make_box", "box_new"):
         return [name, s, uniq()]
+    if name in ("cstr_ref", "cstr_lib"):
+        return [name]
+    if name == "cstr_owned":
+        return [name, lengths(rng)]
+    if name in ("cstr_in", "cstr_inout"):
+        return [name, 0, 0, rng.choice(TEXTS)]
+    if name == "cstr_out":
+        return [name, 0, lengths(rng)]
     if name in ("item_default", "borrow_item", "default_item", "item_delete", "item_value", "item_label",
-                "use_item", "box_value"):
+                "use_item", "box_value", "item_release"):
         return [name, s]
     if name in ("item_twin", "sum_items", "assign"):
         return [name, s, t]
@@ -416,9 +463,14 @@ PY_ONLY = ["box_delete", "bad_vec_sum", "bad_arg", "nomem"]
 NOT_PY = ["copy_item", "vec_inc", "vec_str_count", "cap_delete", "cap_scope"]
 
 
+C_ONLY = ["item_release", "cstr_ref", "cstr_lib", "cstr_owned", "cstr_in", "cstr_out", "cstr_inout"]
+
+
 def ops_for(driver):
     if driver == "py":
         return [o for o in OPS_COMMON if o not in NOT_PY] + PY_ONLY
+    if driver == "c":
+        return list(OPS_COMMON) + C_ONLY
     return list(OPS_COMMON)
 
 
